@@ -238,6 +238,41 @@ def task_validation(ctx, K):
       ctx.error('sigma validation', msg)
 
 
+def task_validation_nonfinite(ctx):
+  """Level sets containing NaN or an infinity are not increasing sequences of numbers from 0 to 1 and must be rejected.  The symbolic exploration
+  above ranges over the reals, which cannot represent these IEEE values, so this clause enumerates them: every position of every valid base set
+  (1-4 layers) replaced by NaN, +inf, -inf (exhaustive over positions x special values; reported as enumeration)."""
+  import itertools
+  from dinosaur import sigma_coordinates as sc
+  ctx.encoded(sc.SigmaCoordinates.__init__)
+  bases = [[0.0, 1.0], [0.0, 0.4, 1.0], [0.0, 0.2, 0.7, 1.0], [0.0, 0.1, 0.3, 0.6, 1.0]]
+  accepted = []
+  n = 0
+  for b in bases:
+    for pos, val in itertools.product(range(len(b)), (float('nan'), float('inf'), float('-inf'))):
+      c = list(b); c[pos] = val
+      n += 1
+      try:
+        with np.errstate(all='ignore'):
+          sc.SigmaCoordinates(np.array(c))
+        accepted.append(c)
+      except ValueError:
+        pass
+    for p1, p2 in itertools.combinations(range(1, len(b) - 1), 2):
+      c = list(b); c[p1] = float('nan'); c[p2] = float('nan'); n += 1
+      try:
+        with np.errstate(all='ignore'):
+          sc.SigmaCoordinates(np.array(c))
+        accepted.append(c)
+      except ValueError:
+        pass
+  conf = dict(cases=n, base_sets=len(bases), special_values=['nan', 'inf', '-inf'])
+  ctx.clause('level_sets_with_non_finite_boundaries_are_rejected', 'discharged' if not accepted else 'failed', config=dict(conf, exhaustive=True), queries=0, elements=n)
+  if accepted:
+    ctx.violation('level_sets_with_non_finite_boundaries_are_rejected', dict(config=conf, kind='nonfinite-accepted'), dict(inputs=[[repr(v) for v in c] for c in accepted[:8]]),
+                  f'SigmaCoordinates({accepted[0]}) was accepted although it is not strictly increasing from 0 to 1 ({len(accepted)} of {n} non-finite level sets accepted)')
+
+
 def make_tasks(tier, seed):
   LS = models.level_sets(seed)
   names = ['eq1', 'eq2', 'eq5', 'dy2', 'dy3', 'dy5', 'un4'] + [k for k in LS if k.startswith('rnd')]
@@ -251,6 +286,7 @@ def make_tasks(tier, seed):
   tasks = [dict(name=n, fn='task_levels', kw=dict(lname=n, boundaries=LS[n].tolist())) for n in names]
   for K in (1, 2, 3) if tier == 'quick' else (1, 2, 3, 4):
     tasks.append(dict(name=f'validation-K{K}', fn='task_validation', kw=dict(K=K)))
+  tasks.append(dict(name='validation-nonfinite', fn='task_validation_nonfinite', kw={}))
   return tasks
 
 
